@@ -185,10 +185,11 @@ func matchPropTimeRange(start, end time.Time, field *ical.Prop) (bool, error) {
 	if err != nil {
 		return false, err
 	}
-	if ptime.After(start) && (end.IsZero() || ptime.Before(end)) {
-		return true, nil
+	// the start of the range is inclusive, its end is not
+	if ptime.Before(start) {
+		return false, nil
 	}
-	return false, nil
+	return end.IsZero() || ptime.Before(end), nil
 }
 
 func matchParamFilter(filter ParamFilter, field *ical.Prop) bool {
